@@ -39,11 +39,11 @@ ALLDEV = {"start_lt_minus_n", "start_gt_n", "neg_off_by_one", "stop_lt_start", "
 BOUNDS = {
     "quick":    dict(MaxN=3, MaxListLen=3, Steps={1, 2, 3}, MaxReads=2, SeqN={2, 3},
                      HistCols={6, 7, 8}, HistN={4}, HistLen=36, ScaleNs={131073, 262143, 300000}, SmallNs={8, 9},
-                     ScaleSteps={2, 3, 5, 7}, ScaleThin=40, RunsMaxLen=3),
+                     ScaleSteps={2, 3, 5, 7}, ScaleThin=40, RunsMaxLen=3, LifeN={3}, LifeLen=5),
     "thorough": dict(MaxN=5, MaxListLen=3, Steps={1, 2, 3}, MaxReads=3, SeqN={3},
                      HistCols={6, 7, 8}, HistN={3, 5}, HistLen=40,
                      ScaleNs={100003, 131072, 131073, 157284, 196608, 262143, 262144, 300000}, SmallNs={8, 9, 10, 11},
-                     ScaleSteps={2, 3, 5, 7, 16}, ScaleThin=5, RunsMaxLen=4),
+                     ScaleSteps={2, 3, 5, 7, 16}, ScaleThin=5, RunsMaxLen=4, LifeN={3}, LifeLen=6),
 }
 # long histories: behaviours simulated, text forms per behaviour
 HIST = {"quick": dict(num=60, text=1), "thorough": dict(num=400, text=2)}
@@ -494,6 +494,8 @@ def run_session(s):
     """s = {layout, n, delim, be, hk, hvar, events:[{rq,cq,opt,style,var}], fresh}: one open handle
     (or, fresh=True, a new handle per event).  noise=True: now and then another handle is opened on the same
     file, read through, and then kept alive or dropped without close()."""
+    if s.get("life"):
+        return run_life(s)
     fx = fixture(s["layout"], s["n"], s["delim"], s["be"])
     out = dict(s)
     out["nc"] = len(fx.names)
@@ -530,6 +532,104 @@ def run_session(s):
                     g.close()
                 except Exception:  # noqa
                     pass
+    return out
+
+
+# ---- object lifetime: the caller keeps a selection object and lets go of the handle ----------------------
+def life_call(obj, ev, fx):
+    """one read through the handle (via h: keyword / bracket) or through the selection object (via v: v[rows] / v.read(rows=))"""
+    rq, style = ev["rq"], ev["style"]
+    R = rows_arg(rq, ev["var"])
+    if style in ("bracket", "chain"):
+        return obj[R]
+    return obj.read(rows=R) if rq["k"] != "all" else obj.read()
+
+
+def life_observe(obj, ev, fx):
+    try:
+        res = life_call(obj, ev, fx)
+    except MachineryError:
+        raise
+    except Exception as e:  # noqa - any exception is a rejection
+        return {"err": "rejected", "shape": "none", "cols": [], "rows": [], "why": type(e).__name__}
+    return project(res, fx, hint_cols(ev["cq"], fx))
+
+
+def life_until_drop(fx, s, evs, steps):
+    """open the handle and run the steps before the drop; returns (handle, selection object, next step).  Run inside
+    a helper for mode "scope": its locals - the handle among them - go away when it returns the selection object."""
+    h = open_handle(fx, s["hk"], s.get("hvar", 0))
+    v = None
+    for i, st in enumerate(steps):
+        if st["a"] == "derive":
+            v = h[cols_arg(st["cq"], fx, s.get("hvar", 0))]
+        elif st["a"] == "read":
+            ev = evs[st["ev"]]
+            ev["o"] = life_observe(h if ev["via"] == "h" else v, ev, fx)
+        elif st["a"] == "drop":
+            return h, v, i
+        elif st["a"] == "collect":
+            import gc
+            gc.collect()
+    return h, v, len(steps)
+
+
+def life_scope(fx, s, evs, steps):
+    h, v, i = life_until_drop(fx, s, evs, steps)
+    del h
+    return v, i
+
+
+def run_life(s):
+    """s = {layout, n, delim, be, hk, hvar, steps:[{a, via, mode, rq, cq, ev}], events:[reads]}: an exported lifetime
+    behaviour with the real reference counting / garbage collector (automatic collection off: the collector runs
+    at the "collect" steps)."""
+    import gc
+    fx = fixture(s["layout"], s["n"], s["delim"], s["be"])
+    out = dict(s)
+    out["nc"] = len(fx.names)
+    evs = out["events"] = [dict(e) for e in s["events"]]
+    steps = s["steps"][1:]                         # after "open"
+    mode = next((st["mode"] for st in steps if st["a"] == "drop"), None)
+    h = v = None
+    was = gc.isenabled()
+    gc.disable()
+    gc.freeze()                                    # what exists already is not this session's: the collector need not scan it
+    try:
+        if mode == "temp":                         # SFile(f)[cols]: the handle is a temporary of the expression
+            v = open_handle(fx, s["hk"], s.get("hvar", 0))[cols_arg(steps[0]["cq"], fx, s.get("hvar", 0))]
+            i = 1
+        elif mode == "scope":
+            v, i = life_scope(fx, s, evs, steps)
+        else:
+            h, v, i = life_until_drop(fx, s, evs, steps)
+            if mode == "cycle":                    # the handle is part of a reference cycle: only the collector frees it
+                box = [h]
+                box.append(box)
+                del box
+            if mode is not None:
+                h = None
+        for st in steps[i + 1:]:
+            if st["a"] == "collect":
+                gc.collect()
+            elif st["a"] == "read":
+                ev = evs[st["ev"]]
+                if ev["via"] != "v":
+                    raise MachineryError("lifetime behaviour reads through the dropped handle")
+                ev["o"] = life_observe(v, ev, fx)
+        if any("o" not in ev for ev in evs):
+            raise MachineryError("lifetime behaviour not fully executed: %s" % s["steps"])
+    finally:
+        try:
+            if h is not None:
+                h.close()
+        except Exception:  # noqa
+            pass
+        h = v = None
+        gc.collect()
+        gc.unfreeze()
+        if was:
+            gc.enable()
     return out
 
 
@@ -627,12 +727,28 @@ def strip(ev):
             "o": dict({"err": o["err"], "shape": o["shape"], "cols": o["cols"]}, **rows)}
 
 
+def trace_events(s):
+    """the trace of a session: its reads, each preceded by the lifetime steps of the caller ("pre"); and the
+    (1-based) position of every read in it"""
+    ev, posn = [], []
+    for e in s["events"]:
+        ev.extend({"a": a.split(":")[0]} for a in e.get("pre", ()))
+        ev.append(strip(e))
+        posn.append(len(ev))
+    return ev, posn
+
+
 def to_records(sessions, start=1):
-    return [{"id": start + i, "n": s["n"], "nc": s["nc"], "ev": [strip(e) for e in s["events"]]} for i, s in enumerate(sessions)]
+    return [{"id": start + i, "n": s["n"], "nc": s["nc"], "ev": trace_events(s)[0]} for i, s in enumerate(sessions)]
 
 
 def replay_case(s, k):
     """a self-contained, re-executable description of event k of session s"""
+    if s.get("life"):
+        return {"kind": "life", "seed": SEED[0], "layout": s["layout"], "n": s["n"], "delim": s["delim"], "be": s["be"], "hk": s["hk"],
+                "hvar": s.get("hvar", 0), "focus": k + 1, "steps": s["steps"],
+                "events": [{f: e[f] for f in ("rq", "cq", "opt", "style", "var", "via", "pre")} for e in s["events"]],
+                "observed": [e["o"] for e in s["events"]]}
     evs = s["events"][:k + 1] if not s.get("fresh") else [s["events"][k]]
     return {"kind": "session", "seed": SEED[0], "layout": s["layout"], "n": s["n"], "delim": s["delim"], "be": s["be"], "hk": s["hk"],
             "hvar": s.get("hvar", 0), "fresh": bool(s.get("fresh")), "focus": (k if not s.get("fresh") else 0) + 1,
@@ -642,6 +758,13 @@ def replay_case(s, k):
 
 
 def describe(s, ev):
+    if s.get("life"):
+        return "%s: %s through %s on a %d-row %s file: rows=%s cols=%s returned %s" % (
+            " ; ".join("open" if st["a"] == "open" else "v = h[cols]" if st["a"] == "derive" else "drop h (%s)" % st["mode"] if st["a"] == "drop"
+                       else "gc.collect()" if st["a"] == "collect" else "read via %s" % st["via"] for st in s["steps"]),
+            ev["style"], "the %s handle" % s["hk"] if ev["via"] == "h" else "the selection object of a dropped %s" % s["hk"],
+            s["n"], "binary" if s["delim"] is None else "text(%r)" % s["delim"],
+            {k: v for k, v in ev["rq"].items() if v not in (NONE, [], 0) or k == "k"}, ev["cq"]["cs"] or "all", ev["o"])
     key = "(%s=)" % key_of(ev["var"]) if ev["style"] in ("kw", "conv", "subset") and ev["cq"]["k"] != "all" else ""
     return "%s %s%s on a %d-row %s file: rows=%s cols=%s opt=%s returned %s" % (
         s["hk"], ev["style"], key, s["n"], "binary" if s["delim"] is None else "text(%r)" % s["delim"],
@@ -657,18 +780,26 @@ def judge(ctx, sessions, what, failed=None):
     for rid, failing in sorted(rejects.items()):
         s = sessions[rid - 1]
         byev = {}
+        posn = trace_events(s)[1]
         for k, cl in failing:
-            byev.setdefault(k - 1, []).append(cl)
+            byev.setdefault(posn.index(k), []).append(cl)
         for k, cls in sorted(byev.items()):
             if failed is not None:
                 failed[(rid - 1, k)] = cls
-            if k > 0 and not s.get("fresh"):
+            if s.get("life") and any(a.startswith("drop") for e in s["events"][:k + 1] for a in e["pre"]):
+                ev = s["events"][k]         # the handle had been let go of: the selection object did not survive it
+                mode = next(a for e in s["events"][:k + 1] for a in e["pre"] if a.startswith("drop"))
+                for cl in cls:
+                    ctx.violation("lifetime/%s|%s|selection object read after its %s handle was let go of (%s)" %
+                                  ("binary" if s["delim"] is None else "text", cl, s["hk"], mode.split(":")[1]),
+                                  describe(s, ev), replay_case(s, k))
+            elif k > 0 and not s.get("fresh"):
                 second.append((s, k, cls))
             else:
                 for cl in cls:
                     ctx.violation(signature(s, s["events"][k], cl), describe(s, s["events"][k]), replay_case(s, k))
     if second:
-        fresh = [run_session(dict(s, events=[{f: s["events"][k][f] for f in ("rq", "cq", "opt", "style", "var")}], fresh=True))
+        fresh = [run_session(dict(s, events=[{f: s["events"][k][f] for f in ("rq", "cq", "opt", "style", "var")}], fresh=True, life=False))
                  for s, k, _ in second]
         saved = ctx.traces
         rej2 = tracecheck.validate(ctx, "SelectTrace.tla", to_records(fresh), what=what + " [failing events re-run on a fresh handle]")
@@ -852,6 +983,40 @@ def sessions_hist(ctx, hists):
     return out
 
 
+def sessions_life(ctx, lifes):
+    """E7: exported lifetime behaviours - open, derive a selection object, reads, let go of the handle (temporary / scope of
+    a helper / del / reference cycle), collector runs, reads through the selection object"""
+    out = []
+    for i, b in enumerate(lifes):
+        evs, steps, pre = [], [], []
+        cq = CALL
+        for st in b["steps"]:
+            st = {f: st[f] for f in ("a", "via", "mode", "rq", "cq")}
+            if st["a"] == "derive":
+                cq = st["cq"]
+                pre.append("derive")
+            elif st["a"] == "drop":
+                pre.append("drop:" + st["mode"])
+            elif st["a"] == "collect":
+                pre.append("collect")
+            elif st["a"] == "read":
+                rk, alt = st["rq"]["k"], (i + len(evs)) % 2
+                if st["via"] == "h":
+                    style = "bracket" if rk == "slice" else "kw" if rk == "all" else ("kw", "bracket")[alt]
+                else:
+                    style = "chain" if rk == "slice" else "chainread" if rk == "all" else ("chain", "chainread")[alt]
+                st["ev"] = len(evs)
+                evs.append(dict(rq=st["rq"], cq=(cq if st["via"] == "v" else CALL), opt="none", style=style, var=i + len(evs),
+                                via=st["via"], pre=pre, life=">".join(pre)))
+                pre = []
+            steps.append(st)
+        forms = [None, TEXT_DELIMS[i % 4]] if not ctx.quick else [(None, TEXT_DELIMS[(i // 2) % 4])[i % 2]]
+        for fi, delim in enumerate(forms):
+            out.append(dict(layout=(i + fi) % NL3, n=b["n"], delim=delim, be=(i % 5 == 0), hk=b["hk"], hvar=i + fi, life=True,
+                            steps=steps, events=evs, src=("life", i)))
+    return out
+
+
 SCALE_STYLES = {"slice": ("bracket", "chain"), "list": ("kw", "bracket", "chain", "chainread", "subset", "conv"),
                 "runs": ("kw", "bracket", "chain", "chainread", "subset", "conv")}
 
@@ -925,7 +1090,8 @@ def execute(ctx, sessions):
     done = pmap(run_session, sessions)
     for s in done:
         for ev in s["events"]:
-            ctx.count((s["layout"], s["n"], s["delim"], s["be"], s["hk"], ev["rq"], ev["cq"], ev["opt"], ev["style"], ev["var"] % 24))
+            ctx.count((s["layout"], s["n"], s["delim"], s["be"], s["hk"], ev["rq"], ev["cq"], ev["opt"], ev["style"], ev["var"] % 24)
+                      + ((ev["life"],) if "life" in ev else ()))
     return done
 
 
@@ -965,6 +1131,19 @@ def model_runs(ctx, B):
                                            cfg_text=cfg(constants=dict(base, Dev={"no_goto"}, MaxReads=2, SeqN={2}), next_="NextCursor",
                                                         invariants=["CursorRefines"]),
                                            workers=1, allow_violation=True, coverage=False),
+        "life": lambda: ctx.tlc("SelectMC.tla", what="object lifetime: reads through a held selection object refine fresh reads "
+                                "whatever became of the handle's names (heap + collector as actions); export",
+                                cfg_text=cfg(constants=dict(base, Dev=set(), DoExport=True), next_="NextLife",
+                                             invariants=["LifeRefines", "LifeSane"], constraints=["ExportLife"]),
+                                workers=1, require=["LOpen", "LDerive", "LDrop", "LCollect", "LRead"], timeout=3000),
+        "life_selftest_f": lambda: ctx.tlc("SelectMC.tla", what="self-test: a handle whose finaliser closes the shared reader violates LifeRefines",
+                                           cfg_text=cfg(constants=dict(base, Dev={"finalizer_closes"}, LifeLen=4), next_="NextLife",
+                                                        invariants=["LifeRefines"]),
+                                           workers=1, allow_violation=True, coverage=False),
+        "life_selftest_w": lambda: ctx.tlc("SelectMC.tla", what="self-test: a selection object that does not keep the reader alive violates LifeRefines",
+                                           cfg_text=cfg(constants=dict(base, Dev={"view_weak"}, LifeLen=4), next_="NextLife",
+                                                        invariants=["LifeRefines"]),
+                                           workers=1, allow_violation=True, coverage=False),
         "seq": lambda: ctx.tlc("SelectMC.tla", what="handle state machine: export read sequences",
                                cfg_text=cfg(constants=dict(base, Dev=set(), DoExport=True), next_="NextSeq",
                                             invariants=["HandleStable"], properties=["HandleStep"], constraints=["ExportSeq"]),
@@ -980,6 +1159,9 @@ def model_runs(ctx, B):
     need = {"BinRefines", "TxtRefines", "PostRefines", "BlockRefines"}
     if not need <= set(res["selftest"].violated):
         raise MachineryError("self-test failed: deviating mechanism violates only %s" % sorted(set(res["selftest"].violated)))
+    for k in ("life_selftest_f", "life_selftest_w"):
+        if "LifeRefines" not in res[k].violated:
+            raise MachineryError("self-test failed: LifeRefines not violated by the deviating lifetime mechanism (%s)" % k)
     if "CursorRefines" not in res["cursor_selftest"].violated:
         raise MachineryError("self-test failed: CursorRefines not violated by a reader that does not rewind")
     return res
@@ -1027,7 +1209,7 @@ def mech_binding(ctx, rowcases, colcases, sessions, failed):
 def self_test(ctx, sessions, failed):
     """binding: a corrupted observation must be rejected, and only it"""
     dirty = {si for si, _ in failed}
-    probe = next((s for si, s in enumerate(sessions) if si not in dirty and not s.get("fresh") and
+    probe = next((s for si, s in enumerate(sessions) if si not in dirty and not s.get("fresh") and not s.get("life") and
                   any(e["o"]["err"] == "none" and len(e["o"].get("rows", [])) >= 2 for e in s["events"])), None)
     if probe is None:
         raise MachineryError("binding self-test: no accepted session with a two-row result to corrupt")
@@ -1084,6 +1266,16 @@ def self_test(ctx, sessions, failed):
         r = dict(base, id=20, ev=[dict(e) for e in base["ev"]])
         r["ev"][k] = {"q": base["ev"][k]["q"], "o": dict(base["ev"][k]["o"], runs=[[a, 5, 1], [a + st, st, c - 2], [a + (c - 1) * st, 0, 1]])}
         recs.append(r)
+    # ... and for a read through a selection object whose handle has been let go of
+    ls = next((s for si, s in enumerate(sessions) if si not in dirty and s.get("life") and s["events"][-1]["o"]["err"] == "none"
+               and any(a.startswith("drop") for a in s["events"][-1]["pre"])), None)
+    if ls is not None:
+        base = to_records([ls])[0]
+        recs.append(dict(base, id=31))
+        r = dict(base, id=32, ev=[dict(e) for e in base["ev"]])
+        r["ev"][-1] = {"q": base["ev"][-1]["q"], "o": {"err": "rejected", "shape": "none", "cols": [], "rows": []}}
+        recs.append(r)
+        want[32] = len(base["ev"])
     if recs:
         saved = ctx.traces
         got = tracecheck.validate(ctx, "SelectTrace.tla", recs, what="self-test: corrupted late reads / run-length observations rejected",
@@ -1092,9 +1284,9 @@ def self_test(ctx, sessions, failed):
         for rid, ev in want.items():
             if not any(x[0] == ev for x in got.get(rid, [])):
                 raise MachineryError("binding self-test failed: corrupted record %d not rejected at event %d (%s)" % (rid, ev, got))
-        if any(rid in got for rid in (1, 11, 20)):
+        if any(rid in got for rid in (1, 11, 20, 31)):
             raise MachineryError("binding self-test failed: an uncorrupted record was rejected (%s)" % got)
-    return hs is not None, bs is not None
+    return hs is not None, bs is not None and (ls is not None or not any(s.get("life") for s in sessions))
 
 
 def run(ctx):
@@ -1121,6 +1313,10 @@ def run(ctx):
             raise MachineryError("too few long histories (%d) / scale cases (%d) exported" % (len(hists), nbig))
         if not any(q["rq"]["k"] == "list" and max(q["rq"]["rs"]) >= hh["n"] for hh in hists for q in hh["reqs"][:-1]):
             raise MachineryError("no rejected call inside a long history")
+        lifes = res["life"].records.get("LIFE", [])
+        modes = {st["mode"] for b in lifes for st in b["steps"] if st["a"] == "drop"}
+        if len(lifes) < 200 or modes != {"del", "scope", "temp", "cycle"} or not any(st["a"] == "collect" for b in lifes for st in b["steps"]):
+            raise MachineryError("too few lifetime behaviours exported (%d, drop modes %s)" % (len(lifes), sorted(modes)))
         colreqs = [c["cq"] for c in colcases if c["opt"] == "none"]
         sessions = []
         if not only or "e1" in only:
@@ -1136,6 +1332,8 @@ def run(ctx):
             sessions += sessions_hist(ctx, hists)
         if not only or "scale" in only:
             sessions += sessions_scale(ctx, scales)
+        if not only or "life" in only:
+            sessions += sessions_life(ctx, lifes)
         ctx.log("executing %d handle sessions, %d reads (%d long histories, %d scale cases)" %
                 (len(sessions), sum(len(s["events"]) for s in sessions), len(hists), nbig))
         done = execute(ctx, sessions)
@@ -1191,6 +1389,16 @@ def run(ctx):
 def replay(ctx, case):
     SEED[0] = case.get("seed", ctx.seed)
     try:
+        if case.get("kind") == "life":
+            s = dict(layout=case["layout"], n=case["n"], delim=case["delim"], be=case["be"], hk=case["hk"], hvar=case.get("hvar", 0),
+                     life=True, steps=case["steps"], events=case["events"], src=("replay", 0))
+            if not fixture(s["layout"], s["n"], s["delim"], s["be"]).ok:
+                raise MachineryError("reference table does not read back as written")
+            done = run_life(s)
+            for k, e in enumerate(done["events"]):
+                print("replay read %d: %s" % (k + 1, describe(done, e)))
+            judge(ctx, [done], "replay")
+            return
         s = dict(layout=case["layout"], n=case["n"], delim=case["delim"], be=case["be"], hk=case["hk"], hvar=case.get("hvar", 0),
                  fresh=case.get("fresh", False), noise=case.get("noise", False), events=case["events"], src=("replay", 0))
         fx = fixture(s["layout"], s["n"], s["delim"], s["be"])
